@@ -120,6 +120,8 @@ class Extractor:
         self.prods: dict[tuple, Prod] = {}
         self.pending = deque()
         self.ret_summary: dict[tuple, set] = {}   # prod key -> set of return kinds ('none','obj','list','tuple',...)
+        self.ret_values: dict[tuple, list] = {}
+        self.ret_post: dict[tuple, tuple] = {}      # prod key -> look-ahead facts that hold whenever the production returns
         self.noreturn = {n for n, f in self.methods.items() if f.returns is not None and S.unparse(f.returns) == "NoReturn"}
         if "_parse_error" not in self.noreturn:
             # the error channel must exist and be NoReturn
@@ -177,9 +179,9 @@ class Extractor:
         self.entry_la = {}
         # rounds: return summaries (nullness of results) and entry look-ahead facts (union over all call sites)
         # are fed back until they are stable
-        for rnd in range(8):
+        for rnd in range(12):
             self.pending = deque(self.prods.keys())
-            before = ({k: set(v) for k, v in self.ret_summary.items()}, dict(self.entry_la))
+            before = ({k: set(v) for k, v in self.ret_summary.items()}, dict(self.entry_la), dict(self.ret_post))
             done = set()
             while self.pending:
                 key = self.pending.popleft()
@@ -202,7 +204,7 @@ class Extractor:
                 entry[r] = (self.U.all, self.U.all)
             self.entry_la = entry
             self.rounds = rnd + 1
-            if rnd > 0 and before == ({k: set(v) for k, v in self.ret_summary.items()}, entry):
+            if rnd > 0 and before == ({k: set(v) for k, v in self.ret_summary.items()}, entry, dict(self.ret_post)):
                 break
         else:
             raise AnalysisError("extraction did not reach a fixpoint of entry facts / return summaries")
@@ -268,6 +270,14 @@ class Extractor:
         for v in prod.returns.values():
             kinds.add(_kind(v))
         self.ret_summary[key] = kinds
+        self.ret_values[key] = [_strip(v) for v in prod.returns.values()]
+        las = [prod.node_info[n]["la"] for n in prod.returns if prod.node_info[n].get("la") is not None]
+        if las and len(las) == len(prod.returns):
+            l1 = frozenset().union(*(l[0] for l in las))
+            l2 = frozenset().union(*(l[1] for l in las))
+            self.ret_post[key] = (l1, l2)
+        else:
+            self.ret_post.pop(key, None)
         return prod
 
     def deref_params(self, m):
@@ -295,7 +305,9 @@ class Extractor:
         self._deref[m] = r
         return r
 
-    def ret_kinds(self, name):
+    def ret_kinds(self, name, sig=None):
+        if sig is not None and (name, sig) in self.ret_summary:
+            return self.ret_summary[(name, sig)]
         out = set()
         for (n, _), ks in self.ret_summary.items():
             if n == name:
@@ -625,7 +637,7 @@ class _Run:
             if EOF in la:
                 yield False, (st.with_la(k, frozenset({EOF})) if k <= 2 else st)
         elif v[0] == "ret":
-            kinds = self.ex.ret_kinds(v[1])
+            kinds = self.ex.ret_kinds(v[1], v[2] if len(v) > 2 else None)
             if not kinds or "none" in kinds or any(k.startswith("const") or k in ("list", "tuple") for k in kinds):
                 yield False, st
             yield True, st
@@ -738,7 +750,7 @@ class _Run:
                     elif lv[0] in ("tok", "obj", "tuple", "mark", "list", "set", "toktype") or (lv[0] == "const" and lv[1] is not None):
                         yield neg, s2, evs
                     elif lv[0] == "ret":
-                        kinds = self.ex.ret_kinds(lv[1])
+                        kinds = self.ex.ret_kinds(lv[1], lv[2] if len(lv) > 2 else None)
                         nm = e.left.id if isinstance(e.left, ast.Name) else None
                         if not kinds or "none" in kinds:
                             yield (not neg), (s2.bind(nm, Val.NONE) if nm else s2), evs
@@ -794,7 +806,10 @@ class _Run:
                     sig = ex._argsig_of_call(self.fn, e, s1, callee)
                     key = ex.request(m, sig)
                     s2 = self.havoc(s1)
-                    yield ("ret", m), s2, ev1 + (("call", m, sig, s1.la, e.lineno),)
+                    post = ex.ret_post.get(key)
+                    if post is not None:
+                        s2 = State(post, s2.envs)
+                    yield ("ret", m, sig), s2, ev1 + (("call", m, sig, s1.la, e.lineno),)
                 return
             if m in ex.token_effect:
                 yield from self.inline(m, e, st)
@@ -839,7 +854,7 @@ class _Run:
             la = st.la[v[1] - 1] if v[1] <= 2 else self.U.all
             return EOF in la
         if v[0] == "ret":
-            return "none" in self.ex.ret_kinds(v[1])
+            return "none" in self.ex.ret_kinds(v[1], v[2] if len(v) > 2 else None)
         return False
 
     def args(self, e, st):
@@ -1205,6 +1220,16 @@ class _Run:
         yield True, st, ()
         yield False, st, ()
 
+    def _never_none(self, c):
+        if is_none(c) or c == Val.UNK:
+            return False
+        if c[0] == "ret":
+            kinds = self.ex.ret_kinds(c[1], c[2] if len(c) > 2 else None)
+            return bool(kinds) and "none" not in kinds
+        if c[0] == "const":
+            return c[1] is not None
+        return c[0] in ("tok", "obj", "tuple", "list", "mark", "set", "toktype")
+
     def assign(self, t, v, st):
         if isinstance(t, ast.Name):
             return st.bind(t.id, v)
@@ -1214,8 +1239,21 @@ class _Run:
                     st = self.assign(tt, vv, st)
                 return st
             if v[0] == "ret":
-                # tuple-returning production: components unknown
-                pass
+                # tuple-returning production: join the components over all its return statements
+                vals = self.ex.ret_values.get((v[1], v[2] if len(v) > 2 else ()), [])
+                if vals and all(x[0] == "tuple" and len(x[1]) == len(t.elts) for x in vals):
+                    for i, tt in enumerate(t.elts):
+                        comps = [x[1][i] for x in vals]
+                        if all(c == comps[0] for c in comps) and comps[0][0] in ("const", "none"):
+                            cv = comps[0]
+                        elif all(self._never_none(c) for c in comps):
+                            cv = Val.OBJ
+                        elif all(is_none(c) for c in comps):
+                            cv = Val.NONE
+                        else:
+                            cv = Val.UNK
+                        st = self.assign(tt, cv, st)
+                    return st
             for tt in t.elts:
                 st = self.assign(tt, Val.UNK, st)
             return st
